@@ -273,13 +273,13 @@ def main(argv=None):
           f"obligations={obligations} held={tot('held')} validated_vs_impl={validated} "
           f"known={len(known_hits)} violations={len(viol_lines)} inconclusive={len(inconclusive)} "
           f"solver={tot('solver_s'):.1f}s wall={wall:.1f}s")
+    for m in inconclusive[:30]:
+        print("INCONCLUSIVE:", m[:1500])
     for l in viol_lines:
         print(l)
     if viol_lines:
         return 1
     if inconclusive:
-        for m in inconclusive[:30]:
-            print("INCONCLUSIVE:", m[:1500])
         return INCONCLUSIVE_EXIT
     if paths == 0 or obligations == 0:
         print("INCONCLUSIVE: nothing explored")
